@@ -134,8 +134,18 @@ fn main() {
                 let line = line.expect("cases file line");
                 if line.trim().is_empty() { continue; }
                 let c: J = serde_json::from_str(&line).expect("case json");
-                let keep = match (&accept, c.get("mode").and_then(|m| m.as_str())) { (Some(a), Some(m)) => a.iter().any(|x| x == m), _ => true };
+                let modes: Vec<&String> = accept.iter().flatten().filter(|x| !x.starts_with('@')).collect();
+                let keep = match c.get("mode").and_then(|m| m.as_str()) { Some(m) if !modes.is_empty() => modes.iter().any(|x| x.as_str() == m), _ => true };
                 if !keep { continue; }
+                // "@parser": only calls of the message parser without a filter (C02 states the parser's verdict; what the skipper, the
+                // storage-header helpers and the filter decide belongs to other statements or to none)
+                if accept.iter().flatten().any(|x| x == "@parser") {
+                    let ev = &c["ev"];
+                    let op = ev["op"].as_str().unwrap_or("");
+                    let unfiltered = ev.get("flt").map(|f| f.is_null() || f.as_array().map(|a| a.is_empty()).unwrap_or(false)).unwrap_or(true);
+                    let parser = match op { "parse" => unfiltered, "session" => ev["api"] == "parse" && unfiltered, _ => false };
+                    if !parser { continue; }
+                }
                 bytes += line.len();
                 total += 1;
                 cases.push(c);
